@@ -307,17 +307,18 @@ PROPS = {
         lean_modules=['OLP.Props.C13'], namespaces=['OLP.Props.C13'],
         required_theorems=['consumed_le_pulled', 'credited_le_consumed', 'credited_le_pulled', 'absent_not_credited', 'consumed_eq_recorded',
                            'block_keeps_nonneg', 'chunk_matures_once', 'withdraw_le_matured', 'validator_withdraw_le_matured',
-                           'withdraw_never_raises_matured_partial', 'wrapped_withdraw_raises_matured',
-                           'pulled_le_year_left', 'burnout_capped_by_pool', 'till_changes_only_at_cycle_end',
-                           'calc_cache_restart_invariant_partial', 'restart_patterns_agree_partial',
-                           'stale_cache_after_error_counterexample', 'sticky_burnout_counterexample',
-                           'pulled_le_year_left_by_till_partial', 'pulled_le_year_left_at_cycle_start_partial'],
+                           'withdraw_never_raises_matured', 'wrapped_withdraw_raises_matured',
+                           'forecast_zero_iff_schedule_over', 'pulled_le_year_left', 'burnout_capped_by_pool', 'till_changes_only_at_cycle_end',
+                           'calc_cache_restart_invariant', 'restart_patterns_agree',
+                           'stall_regression_example', 'slow_cycle_regression_example',
+                           'pulled_le_year_left_by_till', 'pulled_le_year_left_at_cycle_start',
+                           'year_never_overdistributed', 'pull_never_fails'],
         run=run_c13, replay=replay_olh('rewards'), level='proof',
         assumptions=[
-            'the one float expression of the calculator, int64(float64(secsToClose*cycle)/float64(secsPerCycle)), is a parameter `fq` of the model; the theorems use only: fq a b >= 0 for a >= 0, b > 0 (FqNonneg); the driver instantiates it with IEEE-754 double division truncated as Go/amd64 does, and the correspondence run compares every pulled amount with the implementation',
-            'block times are whole seconds (as the harness generates them), so Duration.Seconds() truncated to int64 is the exact difference; Tendermint block times strictly increase (EnvOK: the last complete cycle took a positive number of seconds)',
+            'the one float expression of the calculator, int64(float64(secsToClose*cycle)/float64(secsPerCycle)), is a parameter `fq` of the model and NO theorem assumes anything about it (since fix 2606b58 the forecast is clamped to one cycle whatever it returns); the driver instantiates it with IEEE-754 double division truncated as Go/amd64 does, and the correspondence run compares every pulled amount with the implementation. That the conversion of +-Inf/NaN (a cycle of zero seconds) is the same on every platform is a determinism premise (C01), not used here',
+            'block times are whole seconds (as the harness generates them), so Duration.Seconds() truncated to int64 is the exact difference; the calculator theorems hold for ANY block-time sequence (times need not increase); remaining environment hypotheses: heights start at 1, BlockSpeedCalculateCycle > 0',
             'LastCommitInfo lists every validator once with non-negative power (VotesOK); the active network delegations are non-negative and covered by the balance of the delegation pool (ActiveOK = C12 invariant; its necessity is proved by pool_below_active_breaks_bound and the credits themselves are monitored on the implementation every block)',
-            'restart independence and the per-cycle schedule bound are proved under the hypotheses the code forces (no `Year rewards burned out unexpectedly` error on the always-recomputing node, burnout permanent); outside them the model exhibits the violations (proved counterexamples) and the harness reproduces them on the implementation (known findings KF-C13-1..3)',
+            'the run-level schedule theorems start from a clean state (every year TillLastCycle = Distributed <= supply, e.g. genesis) and, for year_never_overdistributed / pull_never_fails, assume each block consumes between 0 and what it pulled (UseOK), which is clause 1 (consumed_le_pulled, credits_nonneg)',
             'reward options never change after genesis (governance validation rejects any change: ValidateRewards requires DeepEqual); int64 overflow of heights / seconds is out of scope',
         ],
         model_limits='handleBlockRewards is modelled from PullRewards to ConsumeRewards on decoded records (early error returns for a missing currency / undecodable power / missing pool list are not reachable from a valid genesis and not modelled); the calculator cache is private to the implementation, the driver threads its own copy per replica; the amount the implementation pulls is read from the application\'s own calculator object (cache included) by a PullRewards call on a throw-away State over the committed tree immediately before BeginBlock (same height, same records, so BeginBlock\'s own call returns the same amount and the cache is left as BeginBlock would leave it; an unprobed, never-restarted third replica checks this in every 5th history); chunk-matures-once is proved for chains without interval records (the running chain never writes one), interval records from an exported-state genesis are covered by the correspondence only'),
@@ -375,22 +376,23 @@ PROPS = {
     'C14': dict(
         lean_modules=['OLP.Props.C14'], namespaces=['OLP.Props.C14'],
         required_theorems=['wf_init', 'wf_reachable', 'active_copy_is_exclusive', 'stage_monotone', 'stage_monotone_history',
-                           'voting_starts_only_at_goal_before_deadline', 'expire_only_after_deadline_partial', 'expire_any_time_by_anyone',
-                           'outcome_follows_snapshot_votes_partial', 'float_rounding_decides_at_exact_boundary', 'snapshot_fixed_when_voting_begins',
+                           'voting_starts_only_at_goal_before_deadline', 'expire_only_after_deadline', 'endblock_expiry_only_after_deadline',
+                           'outcome_follows_snapshot_votes', 'open_vote_means_undecided', 'snapshot_fixed_when_voting_begins',
                            'config_applied_only_for_passed_proposal', 'config_applied_at_most_once',
                            'funds_returned_in_full_on_cancel_or_miss', 'withdrawal_pays_beneficiary_in_full',
                            'escrow_lowered_only_by_own_withdrawal_or_distribution', 'distributed_once_le_contributed', 'finalize_idempotent',
-                           'gov_handlers_conserves_value', 'gov_history_conserves_value', 'distribution_conserves_value'],
+                           'gov_handlers_conserves_value', 'gov_history_conserves_value', 'distribution_conserves_value',
+                           'outsider_expiry_before_deadline_refused', 'outsider_expiry_in_voting_stage', 'boundary_vote_stays_undecided'],
         run=run_c14, replay=replay_olh('gov'), level='proof',
         assumptions=[
-            'float64 expressions of ResultSoFar are parameters of the model (Env.geDiv, Env.ltOneMinus); the decision theorem assumes they agree with the rational comparisons (Env.Exact). Measured every run by a sweep of the Go float expressions over all 0<=x<=total<=120, pass 1..100: the pass comparison `x/total >= pass/100` is exact; the fail comparison `(1.0 - x/total) < pass/100` is NOT exact at 75 exact boundaries (7 of them with pass in the admissible range 51..80: pass 66, 67, 68), see known finding KF-C14-2; the correspondence driver executes the comparisons with IEEE doubles, so model and implementation agree there as well',
+            'the tally of ResultSoFar is integer arithmetic (the float percentages are only logged); Go evaluates yesPower*100, (totalPower-noPower)*100 and passPercent*totalPower in int64 while the model uses unbounded integers: total voting power below 2^63/100 (validator power is whole OLT staked). The rule as written in Go is compared every run with the rationals on all 0<=x<=total<=120, pass 1..100 (738000 points)',
             'distribution percentages enter as the integers int64(percentage*10000) computed by the harness with the same Go expression (exact for percentages with at most two decimals that are binary-representable after scaling; the awkward family 33.33/16.67/0.07 is driven through the correspondence)',
-            'staking / proposal / evidence option groups are opaque in the model: an update of one of their keys is accepted iff the whole updated group validates, which in the small genesis family is never the case (Env.otherValid = false in the driver; every such proposal is predicted to be rejected at creation and the prediction is compared with the application); fee and ONS option updates are modelled exactly',
+            'staking / proposal / evidence option groups are opaque in the model: an update of one of their keys is accepted iff the whole updated group validates, which in the small genesis family is never the case (Env.otherValid = false in the driver; every such proposal is predicted to be rejected at creation and the prediction is compared with the application); fee and ONS option updates are modelled exactly; no theorem constrains Env',
             'validator records, evidence status records and balances are changed by other subsystems between governance steps (ops setVals / setBal of the model); the correspondence feeds every step with the records decoded from the application at that moment',
             'DistOK (percentages non-negative, at most 100 % in total) and OptsOK (initial funding thresholds non-negative) are hypotheses on the option record; genesis is not validated by the application (DESIGN App. C), option updates of these fields are rejected by ValidateProposal',
             'at least one committed validator record at distribution time (else the code divides by zero, suspect S20, which belongs to C18: the model returns Res.crash)',
         ],
-        model_limits='one model step = one handler execution with the fee as an input (price x gas used, read from the DeliverTx response); signatures, fee-price validation and gas metering belong to C04/C09; Validate is modelled for the amount signs and the validator check only; headline / description strings are not modelled; a fund or vote key deleted and re-created inside one block is modelled as freshly uncommitted (unreachable: records are deleted only at finalisation); EndBlock expiry / finalisation order across different proposals is the key order of the internal queue store (modelled by sorting ids); the internal queue itself is not observable and is tied through its effect at EndBlock (the `end` step receives the items as of BeginBlock); branches never reached by the generator because earlier checks exclude them: statusNotCompleted, finalize-time invalidOptions / finalizeConfigUpdateFailed, configuration update failing validation at finalisation, gettingValidatorList, feeFailed, DeleteAllFunds error'),
+        model_limits='one model step = one handler execution with the fee as an input (price x gas used, read from the DeliverTx response); signatures, fee-price validation and gas metering belong to C04/C09; Validate is modelled for the amount signs and the validator check only; headline / description strings are not modelled; a fund or vote key deleted and re-created inside one block is modelled as freshly uncommitted (unreachable: records are deleted only at finalisation); EndBlock expiry / finalisation order across different proposals is the key order of the internal queue store (modelled by sorting ids); the internal queue itself is not observable and is tied through its effect at EndBlock (the `end` step receives the items as of BeginBlock); branches never reached by the generator because earlier checks exclude them: statusNotCompleted, finalize-time invalidOptions / finalizeConfigUpdateFailed, configuration update failing validation at finalisation, gettingValidatorList, DeleteAllFunds error; a failed fee step (reached only by an almost empty payer) is reproduced with the price of one gas unit as the lower bound of the charge, because a failed transaction does not report its gas. Observation outside the safety statements proved here: a proposal that expires with its goal met is never queued for finalisation and a public PROPOSAL_FINALIZE fails on its undecided tally, while withdrawal is refused because the goal was met: its escrow stays in the fund store for good (counter expired_proposals_with_escrow_locked)'),
     'C10': dict(
         lean_modules=['OLP.Props.C10'], namespaces=['OLP.Props.C10'],
         required_theorems=['heap_pop_sorted', 'updates_sorted_by_pubkey', 'positive_update_rule', 'at_most_top_count', 'prefers_higher_stake',
